@@ -25,7 +25,10 @@ def opResp (args : List String) : String :=
            | _ =>
              let ns := (splitComma rds).filterMap String.toNat?
              (reads maxBuf ns resp.body).1
-         s!"head={resp.status} hdrs={canonHeaders resp.headers} ev={",".intercalate (evs.map evToString)}")
+         match resp.coding with
+         | .plain => s!"head={resp.status} coding=plain hdrs={canonHeaders resp.headers} ev={",".intercalate (evs.map evToString)}"
+         | .gzip => s!"head={resp.status} coding=gzip hdrs={canonHeaders resp.headers} ev=~"
+         | .deflate => s!"head={resp.status} coding=deflate hdrs={canonHeaders resp.headers} ev=~")
     | _, _, _, _ => "bad-op"
   | _ => "bad-op"
 
